@@ -566,6 +566,38 @@ async def explore_states(alpha, configs, max_states, depth_cap):
     return results, seen
 
 
+async def explore_pairs(alpha, seen, all_states, stops):
+    """systematic two-call interleavings on the REAL manager: from each (representative) reachable state, every enabled
+    non-phase input parked at its k-th suspension point (a client handler that is suspended), every enabled non-phase
+    input run to completion meanwhile, then the parked call resumed to its end"""
+    reps = {}
+    for key, (hist, ident, name) in seen.items():
+        d = dict(key)
+        proj = key if all_states else (d["state"], d["facade"], d["spa"], d["conn"], d["desc"], d["proto"])
+        if proj not in reps or len(hist) < len(reps[proj][1]):
+            reps[proj] = (d, hist, ident, name)
+    others = [a for a in alpha if not is_phase(a) and a not in ("enter", "exit")]
+    results = []
+    for proj, (d, hist, ident, name) in sorted(reps.items(), key=lambda kv: (len(kv[1][1]), str(kv[0]))):
+        base = [("start", h, None) for h in hist]
+        for op1 in others:
+            if not enabled(d, op1):
+                continue
+            for k in stops:
+                # does op1 park at its k-th point at all?
+                lines, ans, probs, rig = await run_schedule(base + [("start", op1, k)], ident, name)
+                if not ans[-1].endswith("|P=1"):
+                    break
+                d1 = rig.state()
+                for op2 in others:
+                    if not enabled(d1, op2):
+                        continue
+                    sched = base + [("start", op1, k), ("start", op2, None), ("resume", 0, None)]
+                    lines, ans, probs, rig = await run_schedule(sched, ident, name)
+                    results.append((sched, ident, name, lines, ans, probs))
+    return results, len(reps)
+
+
 async def random_run(rng, alpha, length, concurrent, ident, name):
     """one seeded schedule, generated online against the real manager's state (so that `enabled` is respected)"""
     rig = Rig(ident, name)
@@ -700,6 +732,21 @@ def run(ctx):
     ctx.cov["seeded_sequences"] = nseq
     ctx.cov["distinct_interleaving_shapes"] = len(conc_shapes)
 
+    # ---- C: systematic two-call interleavings (one call suspended in the client's handler while another runs to completion)
+    async def body_c(loop):
+        with patched():
+            return await explore_pairs(alpha, seen, not ctx.quick, (0, 1) if ctx.quick else (0, 1, 2, 3))
+    pair_results, nreps = vloop.run_virtual(body_c, seed=ctx.seed)
+    for n_c, (sched, ident, name, lines, ans, probs) in enumerate(pair_results):
+        where.append((len(all_lines), sched, ident, name))
+        all_lines += lines
+        all_ans += ans
+        report(ctx, sched, ident, name, probs, shortest, (0, 10 ** 6 + n_c))
+        ctx.count("evaluations", 3)
+        conc_shapes.add(tuple((s[0], s[1].split(":")[0] if s[0] == "start" else "", s[2] is not None) for s in sched))
+    ctx.cov["pair_interleavings"] = len(pair_results)
+    ctx.cov["pair_interleaving_start_states"] = nreps
+
     # ---- correspondence with the Lean model
     try:
         model = Driver("Driver/C08.lean").run(all_lines)
@@ -735,7 +782,9 @@ def run(ctx):
     ctx.cov["rule"] = ("A: breadth-first over the sampled state of the real manager (state, facade, spa, connected, descriptors, sensors, identifier, name, "
                        "status text): from every state reached every enabled input of the alphabet (all connect paths, raises, events...), each run on a "
                        "fresh manager by replaying the shortest history; B: seeded schedules of 2..6 (thorough 2..9) inputs, three quarters of them with "
-                       "calls parked at a delivery or await while other calls run and resumed in random order. evaluations = inputs executed; distinct "
+                       "calls parked at a delivery or await while other calls run and resumed in random order; C: from one representative (thorough: every) reached "
+                       "state per (state, facade, spa, connected, descriptors, protocol), every enabled non-phase input parked at its 1st/2nd (thorough: 1st..4th) suspension "
+                       "point x every enabled non-phase input run to completion meanwhile, then the parked call resumed. evaluations = inputs executed; distinct "
                        "non-trivial = distinct manager states reached + distinct interleaving shapes (sequence of input kinds and park decisions)")
     ctx.assumptions += ["locate/connect issued one at a time as the sequence pump does; run-time events only while a spa object exists",
                         "locator.discover, GeckoAsyncSpa._connect, async_get_watercare and the facade class are scripted stubs (tests/test_spaman.py pattern)"]
